@@ -294,7 +294,18 @@ def run_impl(case):
             return [4]
         return [1, r] if isinstance(r, int) else [2, r]
 
-    res1 = [do(op) for op in case["ops1"]]
+    res1 = []
+    other = event.EventMap()
+    for k, op in enumerate(case["ops1"]):
+        res1.append(do(op))
+        if op[0] == ADD and op[1] >= 0 and k % 2 == 0:
+            # the same Source objects also join a second, unrelated event map, in the opposite order (a source may
+            # be listed by several maps): what the first map says and what its Monitor does must not depend on it
+            try:
+                for o in reversed(objs):
+                    other.add(o)
+            except Exception:
+                pass
     try:
         mon = event.Monitor(em, trigger=MODES[case["cfg"]["montrig"]])
     except Exception:
